@@ -304,5 +304,10 @@ for _k, _v in _ADDED.items():
 for _k, _v in _NOTE_REPLACED.items():
     CLAIMS[_k]["note"] = _v
 for _k in CLAIMS:
+    CLAIMS[_k]["text"] = CLAIMS[_k]["text"] + " Also decided for the code this property's anchor files reach through the resolved call graph: the shared helpers of " \
+        "sigpy/util.py and sigpy/backend.py equal their documented forms (SH: vec, split, prod, rss, _expand_shapes, _normalize_axes, axpy, xpay, dirac, randn, copyto, " \
+        "get_device, get_array_module), the Linop / Prox / Alg / App base classes keep their contracts (G1, G3, N1, P1, T1, T4), numba decorators carry no " \
+        "meaning-changing option (SJ), no mutable default argument or class-level container is written (SD), and no closure created in a loop reads the loop variable (SL)."
+for _k in CLAIMS:
     CLAIMS[_k]["note"] = CLAIMS[_k]["note"] + " Local variable names are never relied on: values are identified by role (what is returned, passed on, or stored) or after aligning the " \
-        "function with the rule's reference text; the whole-tree rewrites of tools/benign_global.py (re-emission, renaming of every local, branch and comparison flipping, hoisted returns) leave every check silent."
+        "function with the rule's reference text; the whole-tree rewrites of tools/benign_global.py (re-emission, renaming of every local, branch and comparison flipping, hoisted returns) leave every check silent; a private helper (or its parameters) renamed by an edit is recognised by its parameter list, callees and body digest and read under its old name."
